@@ -190,7 +190,8 @@ CHECKS = {
         "pinned revision. WaitGroup::wait is run against the last done() at every scheduling point of the real code (controlled "
         "scheduler). Real sockets: close()/term() injected into blocked recv / send (no peer, full pipe), connect retries, handshakes "
         "that never complete (outbound, inbound), connections accepted at the moment of the close, streaming traffic with option / "
-        "monitor calls from other tasks, and before every operation of a scripted two-socket history; afterwards every operation on "
+        "monitor calls from other tasks, inproc connect() calls racing the binder's close / term (Inproc.tla: registry, request in a "
+        "broadcast slot, one-shot reply; ConnectReturns, NoHalfOpenForever, NamesFree), and before every operation of a scripted two-socket history; afterwards every operation on "
         "every closed socket, the live-actor count, a re-bind of every name. The history is validated by TLC against "
         "Trace_Lifecycle.tla (the application-visible part of Lifecycle.tla with time bounds).",
    note="Bounded = LINGER + 3 s for close()/term() and calls in flight, 1 s for operations on a closed socket; names are re-bound "
